@@ -221,7 +221,7 @@ func (f *frame) blockExits(b *ssa.BasicBlock, idx int, pos token.Pos, cur *State
 			return inner(name)
 		}
 		for i, en := range ib.ct.Ensures {
-			if strings.HasPrefix(en.Label, "IFACE:") || mentionsLog(en.E) {
+			if strings.HasPrefix(en.Label, "IFACE:") || mentionsLog(en.E) || en.Assumed {
 				continue
 			}
 			t, err := sc.evalBool(en.E)
